@@ -12,6 +12,7 @@
 use rand::rngs::StdRng;
 use rand::Rng;
 use serde_json::{json, Value};
+use smartcore::api::{Predictor, SupervisedEstimator};
 use smartcore::linalg::naive::dense_matrix::DenseMatrix;
 use smartcore::linalg::BaseMatrix;
 use smartcore::linear::linear_regression::*;
@@ -109,6 +110,45 @@ fn ridge<T: RealNumber>(c: &Case, solver: &'static str, alpha: f64, normalize: b
         )
         .and_then(|m| {
             let yh = m.predict(&x)?;
+            Ok((m.coefficients().clone(), m.intercept(), yh))
+        })
+    });
+    match r {
+        Ok(Ok((w, b, yh))) => descale(c, solver, &w, b, &yh),
+        Ok(Err(_)) => failed(solver, "err"),
+        Err(_) => failed(solver, "panic"),
+    }
+}
+
+// ------------------------------------------------------------------ api trait entry points
+/// The same fits through `smartcore::api::SupervisedEstimator::fit` and
+/// `Predictor::predict` (fully qualified calls) instead of the inherent methods.
+fn ols_api(c: &Case, solver: &'static str) -> FitOut {
+    type Dm = DenseMatrix<f64>;
+    let x: Dm = matrix(c);
+    let y: Vec<f64> = target(c);
+    let s = if solver == "qr" { LinearRegressionSolverName::QR } else { LinearRegressionSolverName::SVD };
+    let r = guard(|| {
+        <LinearRegression<f64, Dm> as SupervisedEstimator<Dm, Vec<f64>, LinearRegressionParameters>>::fit(&x, &y, LinearRegressionParameters { solver: s }).and_then(|m| {
+            let yh = <LinearRegression<f64, Dm> as Predictor<Dm, Vec<f64>>>::predict(&m, &x)?;
+            Ok((m.coefficients().clone(), m.intercept(), yh))
+        })
+    });
+    match r {
+        Ok(Ok((w, b, yh))) => descale(c, solver, &w, b, &yh),
+        Ok(Err(_)) => failed(solver, "err"),
+        Err(_) => failed(solver, "panic"),
+    }
+}
+
+fn ridge_api(c: &Case, solver: &'static str, alpha: f64, normalize: bool) -> FitOut {
+    type Dm = DenseMatrix<f64>;
+    let x: Dm = matrix(c);
+    let y: Vec<f64> = target(c);
+    let s = if solver == "chol" { RidgeRegressionSolverName::Cholesky } else { RidgeRegressionSolverName::SVD };
+    let r = guard(|| {
+        <RidgeRegression<f64, Dm> as SupervisedEstimator<Dm, Vec<f64>, RidgeRegressionParameters<f64>>>::fit(&x, &y, RidgeRegressionParameters { solver: s, alpha, normalize }).and_then(|m| {
+            let yh = <RidgeRegression<f64, Dm> as Predictor<Dm, Vec<f64>>>::predict(&m, &x)?;
             Ok((m.coefficients().clone(), m.intercept(), yh))
         })
     });
@@ -446,7 +486,7 @@ fn emit(out: &mut Out, run: i64, ev: &str, prec: &str, c: &Case, fits: &[FitOut]
         None => *skipped += 1,
         Some((s, vals)) => {
             let mut e = json!({"run": run, "ev": ev, "prec": prec, "fam": c.fam, "S": s,
-                "backend": if c.fam.ends_with("/ndarray") { "ndarray" } else { "dense" },
+                "backend": if c.fam.ends_with("/ndarray") { "ndarray" } else if c.fam.ends_with("/api") { "api" } else { "dense" },
                 "n": c.x.len(), "p": c.x[0].len(), "X": c.x, "y": c.y, "cexp": c.cexp, "yexp": c.yexp, "fits": vals});
             if let Some((an, ae, norm)) = ridge {
                 e["aN"] = json!(an);
@@ -494,7 +534,33 @@ fn gen(path: &str) {
                 run += 1;
                 emit(&mut out, run, "Ols", "f64", &cn, &fits, None, &mut skipped);
             }
+            if made % 8 == 5 {
+                let mut ca = c.clone();
+                ca.fam = format!("{}/api", c.fam);
+                let fits = vec![ols_api(&ca, "qr"), ols_api(&ca, "svd")];
+                run += 1;
+                emit(&mut out, run, "Ols", "f64", &ca, &fits, None, &mut skipped);
+            }
         }
+    }
+    // size ladder: row counts around internal block sizes (+-1 data keep the 32-bit sums small)
+    let ladder: &[usize] = if thorough { &[63, 64, 65, 127, 128, 129, 255, 256, 257, 511, 512, 513, 1023, 1024, 1025, 4099] } else { &[63, 64, 65, 255, 256, 257, 1023, 1024, 1025] };
+    for (i, &n) in ladder.iter().enumerate() {
+        let p = 1 + i % 3;
+        let c = loop {
+            let x = gen_x(&mut rng, n, p, "pm1");
+            if full_rank_aug(&x) {
+                let y: Vec<i64> = (0..n).map(|r| 3 + 2 * x[r][0] - x[r][p - 1] + rng.gen_range(-2..=2)).collect();
+                break Case { fam: format!("ladder{}", n), x, y, cexp: vec![0; p], yexp: 0 };
+            }
+        };
+        run += 1;
+        let fits = vec![ols::<f64>(&c, "qr"), ols::<f64>(&c, "svd")];
+        emit(&mut out, run, "Ols", "f64", &c, &fits, None, &mut skipped);
+        run += 1;
+        let normalize = i % 2 == 0;
+        let fits = vec![ridge::<f64>(&c, "chol", 0.5, normalize), ridge::<f64>(&c, "svd", 0.5, normalize)];
+        emit(&mut out, run, "Ridge", "f64", &c, &fits, Some((1, 1, normalize)), &mut skipped);
     }
     made = 0;
     while made < n_ridge {
@@ -525,6 +591,13 @@ fn gen(path: &str) {
                 run += 1;
                 emit(&mut out, run, "Ridge", "f64", &cn, &fits, Some((an, ae, normalize)), &mut skipped);
             }
+            if made % 8 == 5 {
+                let mut ca = c.clone();
+                ca.fam = format!("{}/api", c.fam);
+                let fits = vec![ridge_api(&ca, "chol", alpha, normalize), ridge_api(&ca, "svd", alpha, normalize)];
+                run += 1;
+                emit(&mut out, run, "Ridge", "f64", &ca, &fits, Some((an, ae, normalize)), &mut skipped);
+            }
         }
     }
     let n = out.finish();
@@ -545,7 +618,18 @@ fn replay_file(input: &str, path: &str) {
         let prec = e["prec"].as_str().unwrap().to_string();
         let run = e["run"].as_i64().unwrap();
         let nd = c.fam.ends_with("/ndarray");
-        if e["ev"] == "Ols" && nd {
+        let api = c.fam.ends_with("/api");
+        if e["ev"] == "Ols" && api {
+            let fits = vec![ols_api(&c, "qr"), ols_api(&c, "svd")];
+            emit(&mut out, run, "Ols", &prec, &c, &fits, None, &mut skipped);
+        } else if api {
+            let an = e["aN"].as_i64().unwrap();
+            let ae = e["aE"].as_u64().unwrap() as u32;
+            let norm = e["normalize"].as_bool().unwrap();
+            let alpha = an as f64 / (1u64 << ae) as f64;
+            let fits = vec![ridge_api(&c, "chol", alpha, norm), ridge_api(&c, "svd", alpha, norm)];
+            emit(&mut out, run, "Ridge", &prec, &c, &fits, Some((an, ae, norm)), &mut skipped);
+        } else if e["ev"] == "Ols" && nd {
             let fits = vec![ols_nd(&c, "qr"), ols_nd(&c, "svd")];
             emit(&mut out, run, "Ols", &prec, &c, &fits, None, &mut skipped);
         } else if nd {
